@@ -914,6 +914,16 @@ def build_inputs(ex, content):
     return None
 
 
+def impl_type_token_ok(ex, x, k):
+    """tokens of an `impl Trait<Assoc = T>` type as far as the model reads them: `impl` first, a trait name second, then only
+    names and `= , :: +`"""
+    if k == 1:
+        return ident_is(ex, x, 'impl')
+    if k == 2:
+        return ident_name(ex, x) is not None
+    return ident_name(ex, x) is not None or any(punct_is(ex, x, p_) for p_ in ('=', ',', '::', '+'))
+
+
 def parse_abi_opt(ex, pb):
     A = ex.prog.ast
     t = tok_at(ex, pb)
@@ -977,6 +987,8 @@ def parse_signature(ex, pb):
                     depth += 1
                 elif punct_is(ex, x, '>'):
                     depth -= 1
+                elif not impl_type_token_ok(ex, x, k):
+                    return err(pb, 'expected type', k)
                 toks.append(view_tok(x) if isinstance(x, tuple) else tk_flat(x, lambda s_: ex.force(s_), lambda n_: n_)[0])
                 k += 1
             if depth != 0 or len(toks) < 2:
@@ -1108,6 +1120,8 @@ def ref_items(ex, cells, pub_only=True):
                         x = tok_at(ex, pb, k)
                         if x == END or (depth == 0 and (tk_group_delim(ex, x) == '{' or punct_is(ex, x, ';'))):
                             break
+                        if not (punct_is(ex, x, '<') or punct_is(ex, x, '>') or impl_type_token_ok(ex, x, k)):
+                            return ('unspecified', 'malformed return type')
                         depth += 1 if punct_is(ex, x, '<') else (-1 if punct_is(ex, x, '>') else 0)
                         k += 1
                     if depth != 0 or k < 3:
